@@ -355,3 +355,33 @@ func VerifC04_QueueScanReachesEveryChannel() {
 
 // A deferred publish keeps its delay on EVERY channel of the topic (real topic pump, 1-3 channels).
 func VerifC04_DeferredFanOut() { verifTopicPumpFanOut() }
+
+// A consumer that never sends IDENTIFY gets the server defaults from the connection constructor:
+// the real newClientV2 installs --msg-timeout (so its messages are not redelivered before it), the
+// default heartbeat and output buffer settings; with it the first delivery's deadline is
+// delivery time + msg-timeout.
+func VerifC04_DefaultsWithoutIdentify() { verifrt.Atomic(verifC04Defaults) }
+
+func verifC04Defaults() {
+	o := verifOpts()
+	o.MsgTimeout = time.Duration(verifrt.Int64("msg-timeout-ms")) * time.Millisecond
+	verifrt.Assume(o.MsgTimeout >= time.Second && o.MsgTimeout <= o.MaxMsgTimeout)
+	n := verifShellNSQD(o)
+	verifrt.StubNative("(*github.com/nsqio/nsq/nsqd.NSQD).Notify", verifNotifyNop)
+	conn := &verifConn{}
+	cl := newClientV2(5, conn, n)
+	verifrt.Assert(cl.MsgTimeout == o.MsgTimeout, "connection-starts-with-the-configured-msg-timeout")
+	verifrt.Assert(cl.HeartbeatInterval == o.ClientTimeout/2, "connection-starts-with-the-default-heartbeat")
+	verifrt.Assert(cl.OutputBufferTimeout == o.OutputBufferTimeout, "connection-starts-with-the-default-output-buffer-timeout")
+	// SUB without IDENTIFY, then one delivery through the channel with the connection's timeout
+	c := NewChannel("t", "ch", n, nil)
+	c.AddClient(cl.ID, cl)
+	m := verifMsg("m", 1)
+	c.StartInFlightTimeout(m, cl.ID, cl.MsgTimeout)
+	verifrt.Assert(m.pri == verifrt.LastNow()+int64(o.MsgTimeout), "first-deadline-is-delivery-plus-msg-timeout")
+	verifrt.Assert(!c.processInFlightQueue(verifrt.LastNow()+int64(o.MsgTimeout)-1), "not-timed-out-before-the-msg-timeout")
+	verifrt.Reach("defaults-installed", cl.MsgTimeout > time.Second)
+	if !verifrt.Symbolic() {
+		c.Close()
+	}
+}
